@@ -15,25 +15,25 @@ import (
 // Exports for the C16 verification harness (compiled only with -tags verif
 // through `go build -overlay`; never part of the repository).
 
-// VerifStepProvider calls the unexported stateStepProvider.
-func (a *SidecarNegotiator) VerifStepProvider(ctx context.Context,
+// VerifC16StepProvider calls the unexported stateStepProvider.
+func (a *SidecarNegotiator) VerifC16StepProvider(ctx context.Context,
 	pkt *SidecarPacket, bid *order.Bid,
 	acct *account.Account) (*SidecarPacket, error) {
 
 	return a.stateStepProvider(ctx, pkt, bid, acct)
 }
 
-// VerifStepRecipient calls the unexported stateStepRecipient.
-func (a *SidecarNegotiator) VerifStepRecipient(ctx context.Context,
+// VerifC16StepRecipient calls the unexported stateStepRecipient.
+func (a *SidecarNegotiator) VerifC16StepRecipient(ctx context.Context,
 	pkt *SidecarPacket) (*SidecarPacket, error) {
 
 	return a.stateStepRecipient(ctx, pkt)
 }
 
-// VerifTakeFinalization receives the hand-off of a spawned TicketExecuted
+// VerifC16TakeFinalization receives the hand-off of a spawned TicketExecuted
 // goroutine the way the main loop would (used for single-step tests where no
 // main loop runs).
-func (a *SidecarNegotiator) VerifTakeFinalization(d time.Duration) (sidecar.State,
+func (a *SidecarNegotiator) VerifC16TakeFinalization(d time.Duration) (sidecar.State,
 	bool, bool) {
 
 	select {
@@ -44,8 +44,8 @@ func (a *SidecarNegotiator) VerifTakeFinalization(d time.Duration) (sidecar.Stat
 	}
 }
 
-// VerifValidateOrderedTicket calls the unexported validateOrderedTicket.
-func VerifValidateOrderedTicket(ctx context.Context, t *sidecar.Ticket,
+// VerifC16ValidateOrderedTicket calls the unexported validateOrderedTicket.
+func VerifC16ValidateOrderedTicket(ctx context.Context, t *sidecar.Ticket,
 	signer lndclient.SignerClient, db sidecar.Store) error {
 
 	return validateOrderedTicket(ctx, t, signer, db)
